@@ -11,7 +11,7 @@ MAIN = "cmd/helios"
 ENGINES = [
     dict(name="S", path="engine/shim/vrt", serves_properties=["C02", "C04", "C05", "C06", "C07", "C08", "C09", "C11", "C12", "C13", "C19"],
          kind_free_text="controlled cooperative scheduler + stateless replay DFS with preemption bounding over the real Helios code (sync/atomic/time/go/select rewritten onto shims by vgen)"),
-    dict(name="W", path="engine/shim/wire", serves_properties=["C01", "C14"],
+    dict(name="W", path="engine/shim/wire", serves_properties=["C01", "C14", "C15"],
          kind_free_text="exhaustive enumeration of finite input / configuration / fault-sequence products over real connections: raw-socket HTTP/1.1 client, scripted backends on loopback listeners, the real handler chain behind the real http.Server; differential and reference oracles on the exchanged bytes"),
     dict(name="H", path="engine/shim/vh/hrun.go", serves_properties=["C02", "C04", "C05", "C06", "C07", "C08", "C09", "C11", "C12", "C13", "C19"],
          kind_free_text="explicit-state breadth-first search over event histories of the real objects under a virtual clock, reflective state fingerprint for deduplication, reference-model / monitor oracle on every transition"),
@@ -185,6 +185,17 @@ CHECKS = {
         note="Behind the reverse proxy a response of undeclared length has its header flushed by the proxy before the first body byte, so the must-be-413 clause is applied to declared-length responses there; backend accounting is attributed to exchanges by a sequence header.",
         jobs=[
             dict(name="c14w", part="W", pkg=MAIN, run="TestVerifC14", mode="plain", gomaxprocs=4, shards=dict(quick=12, thorough=16), timeout=dict(quick=600, thorough=3000)),
+        ],
+        assumptions=[],
+    ),
+    "C15": dict(
+        level="exploration",
+        engine="W",
+        technique="exhaustive enumeration of a finite product of Accept-Encoding spellings, content types, sizes around min_size and the buffer cap, payload kinds, handler programs, levels and chain positions over real connections, decoded strictly as labelled, with a differential oracle against the same exchange without the plugin",
+        text="The product of 11 Accept-Encoding spellings x 4 content types x body sizes {0, min-1, min, min+1, 4*min, 100 KiB} x payload kinds {zeros, text, incompressible, already gzip-encoded by the origin} x implicit/explicit status {200, 201, 404, 204, 304} x declared length x GET/HEAD, then levels -1..9 x four chain positions x min_size {1, 64, 1024}, multi-write and flushing handler programs and the cases cap-1, cap, cap+1 around the 10 MiB buffer is exchanged over real connections with and without the plugin; the raw client decodes strictly by the Content-Encoding and framing it received: the result must be the origin's entity with the origin's status; a re-coded response is permitted only if gzip was offered (q=0 counts as refused), the type matches, min_size <= size <= cap and the origin had not encoded; otherwise headers, framing and bytes must equal the exchange without the plugin. A sub-product runs with the origin as a backend behind the real balancer and reverse proxy.",
+        note="Compression is never required by the oracle (the statement says 'only if'); levels and positions are crossed with a reduced core, not with the full product.",
+        jobs=[
+            dict(name="c15w", part="W", pkg=MAIN, run="TestVerifC15", mode="plain", gomaxprocs=4, shards=dict(quick=14, thorough=16), timeout=dict(quick=600, thorough=3000)),
         ],
         assumptions=[],
     ),
